@@ -37,6 +37,7 @@ from ..cfg import CFG
 from ..core import (AnalysisError, call_name, const_str, find_calls, kwarg,
                     last_attr, names_in, short, stmts_of, txt, walk)
 from .. import lib_C04 as L
+from ..normalize import expand_locals, inline_helpers
 
 ASSUMPTIONS = [
     "NOT decided: contour <-> mask round trip, translation / rotation "
@@ -59,6 +60,138 @@ CT = "dclab/features/fl_crosstalk.py"
 SIGNED = {"int", "np.int16", "np.int32", "np.int64", "np.intp", "float",
           "np.float32", "np.float64", "'int64'", "'int32'", "'float64'",
           "np.int_", "np.longlong"}
+
+
+# ----------------------------------------------------------------------
+# lazy polynomial value of the locals of a function (single-assignment
+# locals and module constants are substituted to a fixpoint, so renaming,
+# splitting into intermediates and reordering independent statements do not
+# change what a rule compares)
+
+class Fold:
+    def __init__(self, repo, rel, func, leaf=None, multi=None, stop=()):
+        self.repo, self.rel, self.func = repo, rel, func
+        self.leaf, self.multi, self.stop = leaf, multi, set(stop)
+        self.defs, self.augs, self.other = {}, {}, set()
+        self.memo, self.busy = {}, set()
+        for n in walk(func):
+            if isinstance(n, ast.Assign):
+                for t in n.targets:
+                    if isinstance(t, ast.Name) and len(n.targets) == 1:
+                        self.defs.setdefault(t.id, []).append(n)
+                    else:
+                        for b in _bound(t):
+                            if not isinstance(t, (ast.Subscript,
+                                                  ast.Attribute)):
+                                self.other.add(b)
+            elif isinstance(n, ast.AugAssign):
+                if isinstance(n.target, ast.Name):
+                    self.augs.setdefault(n.target.id, []).append(n)
+            elif isinstance(n, (ast.For, ast.comprehension)):
+                self.other |= set(_bound(n.target))
+            elif isinstance(n, ast.With):
+                for it in n.items:
+                    if it.optional_vars is not None:
+                        self.other |= set(_bound(it.optional_vars))
+        a = func.args
+        self.params = {x.arg for x in a.args + a.kwonlyargs}
+
+    def value(self, name):
+        if name in self.memo:
+            return self.memo[name]
+        if name in self.busy:
+            raise AnalysisError(f"{self.func.name}: cyclic definition of "
+                                f"`{name}`")
+        self.busy.add(name)
+        try:
+            defs = self.defs.get(name, [])
+            augs = self.augs.get(name, [])
+            if len(defs) == 1 and not augs and name not in self.other \
+                    and name not in self.params:
+                r = self.rat(defs[0].value)
+            elif self.multi is not None:
+                r = self.multi(self, name, defs, augs)
+            else:
+                r = None
+            if r is None:
+                r = Rat(Poly.sym(name))     # opaque (re-assigned) value
+            self.memo[name] = r
+            return r
+        finally:
+            self.busy.discard(name)
+
+    def res(self, e):
+        if self.leaf is not None:
+            r = self.leaf(self, e)
+            if r is not None:
+                return r
+        if isinstance(e, ast.Name):
+            if e.id in self.stop:
+                return e.id
+            if e.id in self.defs or e.id in self.augs:
+                return self.value(e.id)
+            if e.id in self.params or e.id in self.other:
+                return e.id
+            c = self.repo.module_assign(self.rel, e.id, missing_ok=True)
+            if isinstance(c, ast.Constant) and isinstance(
+                    c.value, (int, float)) and not isinstance(c.value, bool):
+                return ratfun(c, lambda x: None)
+            if isinstance(c, (ast.BinOp, ast.UnaryOp)):
+                return ratfun(c, self.res)
+            return e.id
+        return None
+
+    def rat(self, e):
+        return ratfun(e, self.res)
+
+    def try_rat(self, e):
+        try:
+            return self.rat(e)
+        except AnalysisError:
+            return None
+
+
+def _symbols(r):
+    out = set()
+    for p in (r.n, r.d):
+        for mono in p.t:
+            out |= {s_ for s_, _e in mono}
+    return out
+
+
+class ImportAwareRepo:
+    """repo view in which a private helper imported from a sibling module
+    (``from .mod import _helper``) is found like a helper of the file"""
+
+    def __init__(self, repo):
+        self._repo = repo
+
+    def __getattr__(self, name):
+        return getattr(self._repo, name)
+
+    def func(self, rel, qual, missing_ok=False):
+        f = self._repo.func(rel, qual, missing_ok=True)
+        if f is not None or "." in qual:
+            if f is None and not missing_ok:
+                return self._repo.func(rel, qual)
+            return f
+        for st in self._repo.tree(rel).body:
+            if isinstance(st, ast.ImportFrom) and st.level == 1 and st.module:
+                for a in st.names:
+                    if (a.asname or a.name) == qual:
+                        other = rel.rsplit("/", 1)[0] + "/" \
+                            + st.module.replace(".", "/") + ".py"
+                        if self._repo.exists(other):
+                            return self._repo.func(other, a.name,
+                                                   missing_ok=missing_ok)
+        if missing_ok:
+            return None
+        return self._repo.func(rel, qual)
+
+
+def normalised(repo, rel, qual):
+    """the function with extracted private helpers inlined"""
+    return inline_helpers(ImportAwareRepo(repo), rel, repo.func(rel, qual))
 
 
 # ----------------------------------------------------------------------
@@ -204,7 +337,7 @@ def _r182(ctx, repo, bg_kinds):
     for rel, q, bc in ((BRIGHT, "get_bright", False),
                        (BC, "get_bright_bc", True),
                        (PERC, "get_bright_perc", True)):
-        fn = repo.func(rel, q)
+        fn = normalised(repo, rel, q)
         loops = [n for n in walk(fn) if isinstance(n, ast.For)
                  and isinstance(n.target, ast.Name)]
         stats = []
@@ -424,48 +557,52 @@ def r183(ctx, repo):
 # ----------------------------------------------------------------------
 # R18.4 / R18.6
 
-def _np_resolve(env):
-    def res(e):
-        if isinstance(e, ast.Name) and e.id in env:
-            return env[e.id]
-        if isinstance(e, ast.Name):
-            return e.id
-        if isinstance(e, ast.Attribute) and txt(e) == "np.pi":
+ABS = ("np.abs", "abs", "np.absolute", "np.fabs")
+
+
+def _vol_leaf(sums):
+    def leaf(fold, e):
+        if isinstance(e, ast.Attribute) and txt(e) in ("np.pi", "math.pi"):
             return "pi"
-        if isinstance(e, ast.Call) and call_name(e) in ("np.abs", "abs",
-                                                        "np.absolute"):
-            return ratfun(e.args[0], res)
-        if isinstance(e, ast.Call) and call_name(e) in ("np.sum",
-                                                        "np.nansum"):
-            return "SUM[" + txt(e.args[0]) + "]"
-        if isinstance(e, ast.Subscript):
-            return txt(e)
+        if isinstance(e, ast.Call):
+            cn = call_name(e)
+            if cn in ABS and len(e.args) == 1:
+                return fold.rat(e.args[0])
+            if cn == "np.diff" and len(e.args) == 1 and not e.keywords \
+                    and txt(e.args[0]) in ("r", "z"):
+                return "d" + txt(e.args[0])
+            if cn in ("np.sum", "np.nansum") and len(e.args) == 1:
+                sums.append(e.args[0])
+                return "SUM"
+            if cn == "float" and len(e.args) == 1:
+                return fold.rat(e.args[0])
+        if isinstance(e, ast.Subscript) and txt(e) == "r[:-1]":
+            return "rp"
         return None
-    return res
+    return leaf
 
 
 def r184(ctx, repo):
-    vr = repo.func(VOL, "vol_revolve")
-    asg = {}
-    for s in stmts_of(vr):
-        if isinstance(s, ast.Assign) and len(s.targets) == 1 and isinstance(
-                s.targets[0], ast.Name):
-            asg[s.targets[0].id] = s
-    for need in ("v", "vol", "dr", "dz", "rp"):
-        if need not in asg:
-            raise AnalysisError(f"vol_revolve: binding `{need}` lost")
-    ok = txt(asg["dr"].value) == "np.diff(r)" and txt(
-        asg["dz"].value) == "np.diff(z)" and txt(asg["rp"].value) == "r[:-1]"
-    ctx.ob("R18.4", ok, "dr, dz are the forward differences, rp the start "
-           "radius of each segment" if ok else "dr / dz / rp are no longer "
-           "np.diff(r), np.diff(z), r[:-1]", node=asg["dr"],
-           label="segment quantities", nontrivial=False)
-    env = {}
-    for k in ("a1", "a2", "a3"):
-        if k in asg:
-            env[k] = ratfun(asg[k].value, _np_resolve({}))
-    res = _np_resolve(env)
-    v = ratfun(asg["v"].value, res)
+    vr = normalised(repo, VOL, "vol_revolve")
+    rets = [r for r in walk(vr) if isinstance(r, ast.Return)]
+    if len(rets) != 1 or rets[0].value is None:
+        raise AnalysisError("vol_revolve: single return of the volume lost")
+    ret = rets[0]
+    sums = []
+    fold = Fold(repo, VOL, vr, leaf=_vol_leaf(sums))
+    vol = fold.rat(ret.value)
+    if len(sums) != 1:
+        raise AnalysisError(f"vol_revolve: expected one sum over the "
+                            f"segments, found {len(sums)}")
+    seg_expr = sums[0]
+    inner = []
+    v = Fold(repo, VOL, vr, leaf=_vol_leaf(inner)).rat(seg_expr)
+    syms = _symbols(v)
+    ok = syms == {"rp", "dr", "dz", "pi"}
+    ctx.ob("R18.4", ok, "the segment volume is built from dr = diff(r), dz = "
+           "diff(z), rp = r[:-1]" if ok else f"the segment volume is built "
+           f"from {sorted(syms)}, expected np.diff(r), np.diff(z), r[:-1] "
+           f"and pi", node=ret, label="segment quantities", nontrivial=False)
     rp, dr, dz, pi = (Rat(Poly.sym(s)) for s in ("rp", "dr", "dz", "pi"))
     big = rp + dr
     three = Rat(Poly.const(3))
@@ -474,71 +611,93 @@ def r184(ctx, repo):
     ctx.ob("R18.4", ok, "segment volume equals pi*dz/3*(R^2 + R*r + r^2) "
            "with R = r + dr (polynomial identity)" if ok else
            "segment volume differs from the truncated-cone formula "
-           "pi*h/3*(R^2 + R*r + r^2) of the docstring", node=asg["v"],
+           "pi*h/3*(R^2 + R*r + r^2) of the docstring", node=ret,
            label="truncated cone formula")
-    sign_kept = not any(isinstance(c, ast.Call) and call_name(c) in (
-        "np.abs", "abs") and "dz" in names_in(c) for c in ast.walk(
-        asg["v"].value))
+    # sign of dz: no absolute value may enclose the height difference
+    full = ast.parse(expand_locals(vr, seg_expr, depth=8), mode="eval").body
+    sign_kept = not any(
+        isinstance(c, ast.Call) and call_name(c) in ABS + ("np.sign",)
+        and ("np.diff(z)" in txt(c) or "dz" in names_in(c))
+        for c in ast.walk(full))
     ctx.ob("R18.4", sign_kept, "the sign of dz is kept (volume flips with "
            "the orientation)" if sign_kept else "|dz| is used: the volume no "
-           "longer flips sign with the orientation", node=asg["v"],
+           "longer flips sign with the orientation", node=ret,
            label="orientation sign")
-    vol = ratfun(asg["vol"].value, _np_resolve({}))
     mono = vol.monomial()
-    ok = mono is not None and mono[0].get("point_scale") == 3 and mono[1] \
-        == 1 and any(k.startswith("SUM[") for k in mono[0])
+    ok = mono is not None and mono[0] == {"SUM": 1, "point_scale": 3} \
+        and mono[1] == 1
     ctx.ob("R18.4", ok, "the summed volume is scaled by point_scale**3"
-           if ok else f"volume scaling is {mono[0] if mono else 'not a monomial'}"
-           f", expected point_scale**3", node=asg["vol"],
-           label="cubic scale")
-    rets = [r for r in walk(vr) if isinstance(r, ast.Return)]
-    ok = len(rets) == 1 and txt(rets[0].value) == "vol"
-    ctx.ob("R18.4", ok, "returns the scaled sum", node=rets[0],
+           if ok else f"volume scaling is "
+           f"{mono[0] if mono else 'not a monomial'}"
+           f", expected point_scale**3", node=ret, label="cubic scale")
+    ctx.ob("R18.4", True, "returns the scaled sum", node=ret,
            label="return", nontrivial=False)
 
-    gv = repo.func(VOL, "get_volume")
+    gv = normalised(repo, VOL, "get_volume")
     calls = find_calls(gv, name="vol_revolve")
     if len(calls) != 2:
         raise AnalysisError("get_volume: expected two vol_revolve calls")
+    index = {id(c): i + 1 for i, c in enumerate(calls)}
+
+    def gleaf(fold, e):
+        if isinstance(e, ast.Call) and id(e) in index:
+            return f"V{index[id(e)]}"
+        if isinstance(e, ast.Subscript):
+            t = txt(e).replace("(", "").replace(")", "")
+            if t in ("cc[:, 0]", "cc[:, 1]"):
+                return "cc" + t[-2]
+            if isinstance(e.value, ast.Name) and e.value.id in (
+                    "pos_x", "pos_y") and isinstance(e.slice, ast.Name):
+                return f"{e.value.id}[i]"
+        return None
+    gf = Fold(repo, VOL, gv, leaf=gleaf)
+    pix = Rat(Poly.sym("pix"))
     for i, c in enumerate(calls):
         sc = kwarg(c, "point_scale", 2)
-        ok = sc is not None and txt(sc) == "pix"
+        r = gf.try_rat(sc) if sc is not None else None
+        ok = r is not None and r.same(pix)
         ctx.ob("R18.4", ok, "the pixel size is the point scale" if ok else
                f"vol_revolve is called with scale `{txt(sc)}`", node=c,
                label=f"vol_revolve call #{i + 1} scale")
-    # centroid in pixels
-    found = {}
-    for s in stmts_of(gv):
-        if isinstance(s, ast.Assign) and isinstance(s.value, ast.BinOp) \
-                and isinstance(s.value.op, ast.Sub) and isinstance(
-                s.value.left, ast.Subscript) and txt(
-                s.value.left.value) == "cc":
-            col = txt(s.value.left.slice).strip("()")
-            r = ratfun(s.value.right, _np_resolve({})).monomial()
-            found[col] = (s, r)
-    for col, pos in ((":, 0", "pos_x[ii]"), (":, 1", "pos_y[ii]")):
-        key = "(slice(None, None, None), %s)" % col[-1]
-        ent = found.get(col) or found.get(key)
-        if ent is None:
+    # centroid in pixels: every arithmetic local that involves a contour
+    # column is that column minus centroid / pixel size
+    asgs = [n for n in stmts_of(gv) if isinstance(n, ast.Assign)]
+    for k, pos in (("0", "pos_x[i]"), ("1", "pos_y[i]")):
+        col = Rat(Poly.sym("cc" + k))
+        want = col - Rat(Poly.sym(pos)) / pix
+        hits = []
+        for a in asgs:
+            r = gf.try_rat(a.value)
+            if r is not None and "cc" + k in _symbols(r):
+                hits.append((a, r))
+        if not hits:
             raise AnalysisError("get_volume: centring statement lost")
-        s, r = ent
-        ok = r is not None and r[0] == {pos: 1, "pix": -1} and r[1] == 1
-        ctx.ob("R18.4", ok, f"column {col[-1]} is centred with {pos}/pix"
-               if ok else f"column {col[-1]} is centred with "
-               f"`{txt(s.value.right)}` (expected {pos} / pix: centroid in "
-               f"µm, contour in pixels)", node=s,
-               label=f"centroid in pixels, column {col[-1]}")
-    avg = [s for s in stmts_of(gv) if isinstance(s, ast.Assign)
-           and "vol_right" in names_in(s.value)
-           and "vol_left" in names_in(s.value)]
-    ok = False
-    if avg:
-        r = ratfun(avg[0].value, _np_resolve({}))
-        half = Rat(Poly.const(Fraction(1, 2)))
-        ok = r.same((Rat(Poly.sym("vol_right")) + Rat(Poly.sym("vol_left")))
-                    * half)
+        bad = [a for a, r in hits if not r.same(want)]
+        ctx.ob("R18.4", not bad, f"column {k} is centred with "
+               f"{pos.replace('[i]', '[ii]')}/pix" if not bad else
+               f"column {k} is centred by `{short(bad[0].value, 50)}` "
+               f"(expected {pos.replace('[i]', '[ii]')} / pix: centroid "
+               f"in µm, contour in pixels)", node=(bad or [hits[0][0]])[0],
+               label=f"centroid in pixels, column {k}")
+    v1, v2 = Rat(Poly.sym("V1")), Rat(Poly.sym("V2"))
+    half = Rat(Poly.const(Fraction(1, 2)))
+    avg = []
+    for a in asgs:
+        r = gf.try_rat(a.value)
+        if r is not None and {"V1", "V2"} <= _symbols(r):
+            avg.append((a, r))
+    # the value that is stored: not an intermediate of another candidate
+    inter = set()
+    for a, _r in avg:
+        for b, _r2 in avg:
+            if a is not b:
+                inter |= {t.id for t in a.targets if isinstance(t, ast.Name)
+                          and t.id in names_in(b.value)}
+    avg = [(a, r) for a, r in avg if not any(
+        isinstance(t, ast.Name) and t.id in inter for t in a.targets)]
+    ok = bool(avg) and all(r.same((v1 + v2) * half) for _a, r in avg)
     ctx.ob("R18.4", ok, "the result is the mean of both halves" if ok else
-           "the two half volumes are not averaged", node=avg[0] if avg
+           "the two half volumes are not averaged", node=avg[0][0] if avg
            else gv, label="average of halves")
 
 
@@ -790,49 +949,106 @@ def _swap(r, table=SWAP):
     return Rat(_swap_poly(r.n, table), _swap_poly(r.d, table))
 
 
-def r187(ctx, repo):
-    fn = repo.func(INERT, "cont_moments_cv")
-    env = {}
-    nodes = {}
+A_NAMES = ("a00", "a10", "a01", "a20", "a02", "a11", "a30", "a03", "a21",
+           "a12")
 
-    def res(e):
-        if isinstance(e, ast.Name) and e.id in env:
-            return env[e.id]
-        if isinstance(e, ast.Call) and call_name(e) == "np.sum":
-            return ratfun(e.args[0], res)
+
+def _moment_fold(repo, fn, stop=()):
+    """Fold for cont_moments_cv: contour columns -> x0 / y0, np.roll(·, -1)
+    -> x1 / y1, np.sum(e) -> e, the orientation sign -> SIGN"""
+    def sign_of(fold, test):
+        """'neg' / 'pos' when `test` decides the sign of a00"""
+        if isinstance(test, ast.Compare) and len(test.ops) == 1:
+            a, b = test.left, test.comparators[0]
+            op = test.ops[0]
+            if isinstance(a, ast.Constant) and a.value == 0:
+                a, b = b, a
+                op = {ast.Lt: ast.Gt, ast.Gt: ast.Lt, ast.LtE: ast.GtE,
+                      ast.GtE: ast.LtE}.get(type(op), type(None))()
+            if isinstance(b, ast.Constant) and b.value == 0 and isinstance(
+                    a, ast.Name) and a.id == "a00":
+                if isinstance(op, ast.Lt):
+                    return "neg"
+                if isinstance(op, (ast.Gt, ast.GtE)):
+                    return "pos"
         return None
-    for s in fn.body:
-        if not (isinstance(s, ast.Assign) and len(s.targets) == 1
-                and isinstance(s.targets[0], ast.Name)):
-            continue
-        name = s.targets[0].id
-        v = s.value
-        t = txt(v)
-        if t == "cont[:, 0]":
-            env[name] = Rat(Poly.sym("x0"))
-        elif t == "cont[:, 1]":
-            env[name] = Rat(Poly.sym("y0"))
-        elif isinstance(v, ast.Call) and call_name(v) == "np.roll":
-            base = env.get(txt(v.args[0]))
-            sh = kwarg(v, "shift", 1)
-            if base is None or txt(sh) != "-1":
-                ctx.ob("R18.7", False, f"`{t}`: the successor of each point "
-                       f"is not np.roll(·, -1)", node=s,
-                       label="successor points")
-                return
-            sym = list(base.n.t)[0][0][0]
-            env[name] = Rat(Poly.sym(sym[0] + "1"))
-        else:
-            try:
-                env[name] = ratfun(v, res)
-            except AnalysisError:
-                continue
-        nodes[name] = s
-    for need in ("a00", "a10", "a01", "a20", "a02", "a11", "a30", "a03",
-                 "a21", "a12"):
-        if need not in env:
+
+    def const(e, v):
+        return (isinstance(e, ast.Constant) and e.value == v) or (
+            isinstance(e, ast.UnaryOp) and isinstance(e.op, ast.USub)
+            and isinstance(e.operand, ast.Constant) and -e.operand.value == v)
+
+    def leaf(fold, e):
+        if isinstance(e, ast.Subscript):
+            t = txt(e).replace("(", "").replace(")", "")
+            if t == "cont[:, 0]":
+                return "x0"
+            if t == "cont[:, 1]":
+                return "y0"
+        if isinstance(e, ast.Call):
+            cn = call_name(e)
+            if cn in ("np.sum",) and len(e.args) == 1 and not e.keywords:
+                return fold.rat(e.args[0])
+            if cn == "np.roll":
+                sh = kwarg(e, "shift", 1)
+                base = fold.rat(e.args[0]) if e.args else None
+                sy = _symbols(base) if base is not None else set()
+                if txt(sh) != "-1" or len(sy) != 1 or not base.same(
+                        Rat(Poly.sym(next(iter(sy))))) or next(
+                        iter(sy)) not in ("x0", "y0"):
+                    raise AnalysisError(f"cont_moments_cv: `{txt(e)}` is "
+                                        f"not the successor np.roll(x, -1)")
+                return next(iter(sy))[0] + "1"
+            if cn == "np.sign" and len(e.args) == 1 and txt(
+                    e.args[0]) == "a00":
+                return "SIGN"
+        if isinstance(e, ast.IfExp):
+            k = sign_of(fold, e.test)
+            if k == "neg" and const(e.body, -1) and const(e.orelse, 1):
+                return "SIGN"
+            if k == "pos" and const(e.body, 1) and const(e.orelse, -1):
+                return "SIGN"
+            if (k == "neg" and const(e.body, 1) and const(e.orelse, -1)) or (
+                    k == "pos" and const(e.body, -1) and const(e.orelse, 1)):
+                return -Rat(Poly.sym("SIGN"))
+            raise AnalysisError(f"cont_moments_cv: conditional "
+                                f"`{short(e, 50)}` not recognised")
+        return None
+
+    def multi(fold, name, defs, augs):
+        # c = <const>; if a00 < 0: c *= -1
+        if len(defs) == 1 and augs:
+            for a in augs:
+                g = a.parent
+                if not (isinstance(a.op, ast.Mult) and const(a.value, -1)
+                        and isinstance(g, ast.If) and a in g.body
+                        and sign_of(fold, g.test) == "neg"):
+                    raise AnalysisError(
+                        f"cont_moments_cv: update `{short(a, 40)}` of "
+                        f"`{name}` not recognised")
+            if len(augs) != 1:
+                raise AnalysisError(f"cont_moments_cv: `{name}` is flipped "
+                                    f"{len(augs)} times")
+            return fold.rat(defs[0].value) * Rat(Poly.sym("SIGN"))
+        return None
+    return Fold(repo, INERT, fn, leaf=leaf, multi=multi, stop=stop)
+
+
+def r187(ctx, repo):
+    fn = normalised(repo, INERT, "cont_moments_cv")
+    fa = _moment_fold(repo, fn)
+    env, nodes = {}, {}
+    for need in A_NAMES:
+        d = fa.defs.get(need, [])
+        if len(d) != 1:
             raise AnalysisError(f"cont_moments_cv: polynomial {need} could "
                                 f"not be folded")
+        env[need] = fa.value(need)
+        nodes[need] = d[0]
+        if not _symbols(env[need]) <= {"x0", "y0", "x1", "y1"}:
+            raise AnalysisError(
+                f"cont_moments_cv: {need} depends on "
+                f"{sorted(_symbols(env[need]) - {'x0', 'y0', 'x1', 'y1'})}")
     pairs = [("a00", "a00"), ("a10", "a01"), ("a20", "a02"), ("a11", "a11"),
              ("a30", "a03"), ("a21", "a12")]
     for a, b in pairs:
@@ -853,46 +1069,59 @@ def r187(ctx, repo):
            "area and the x-moments" if ok else "a00 / a10 / a20 differ from "
            "the Green's theorem polynomials", node=nodes["a00"],
            key=f"{INERT}::cont_moments_cv::green sums")
-    # scale constants
-    md = [c for c in walk(fn) if isinstance(c, ast.Call) and call_name(c)
-          == "dict" and any(k.arg == "m00" for k in c.keywords)]
-    if not md:
+    # scale constants: m_pq = a_pq * c_pq * SIGN
+    entries = {}
+    md = None
+    for c in walk(fn):
+        if isinstance(c, ast.Call) and call_name(c) == "dict" and any(
+                k.arg == "m00" for k in c.keywords):
+            md = c
+            entries.update({k.arg: k.value for k in c.keywords if k.arg})
+        elif isinstance(c, ast.Dict) and any(const_str(k) == "m00"
+                                             for k in c.keys if k):
+            md = c
+            entries.update({const_str(k): v for k, v in zip(c.keys, c.values)
+                            if k is not None and const_str(k)})
+    if md is None:
         raise AnalysisError("cont_moments_cv: moment dict lost")
-    consts = {}
-    for s in walk(fn):
-        if isinstance(s, ast.Assign) and isinstance(s.targets[0], ast.Name) \
-                and s.targets[0].id.startswith("db1_") and isinstance(
-                s.value, ast.Constant):
-            consts[s.targets[0].id] = Fraction(s.value.value
-                                               ).limit_denominator(1000)
     want = {"m00": ("a00", Fraction(1, 2)), "m10": ("a10", Fraction(1, 6)),
             "m01": ("a01", Fraction(1, 6)), "m20": ("a20", Fraction(1, 12)),
             "m11": ("a11", Fraction(1, 24)), "m02": ("a02", Fraction(1, 12)),
             "m30": ("a30", Fraction(1, 20)), "m21": ("a21", Fraction(1, 60)),
             "m12": ("a12", Fraction(1, 60)), "m03": ("a03", Fraction(1, 20))}
-    got = {}
-    for k in md[0].keywords:
-        v = k.value
-        if isinstance(v, ast.BinOp) and isinstance(v.op, ast.Mult):
-            ns = [txt(v.left), txt(v.right)]
-            a = [n for n in ns if n.startswith("a")]
-            d = [consts.get(n) for n in ns if n in consts]
-            got[k.arg] = (a[0] if a else None, d[0] if d else None)
+    fm = _moment_fold(repo, fn, stop=A_NAMES)
+    sign = Rat(Poly.sym("SIGN"))
+    got, scale_ok, sign_ok = {}, {}, {}
+    for k, (a, cst) in want.items():
+        if k not in entries:
+            raise AnalysisError(f"cont_moments_cv: moment {k} lost")
+        r = fm.rat(entries[k])
+        plain = Rat(Poly.sym(a)) * Rat(Poly.const(cst))
+        got[k] = r
+        sign_ok[k] = r.same(plain * sign)
+        scale_ok[k] = sign_ok[k] or r.same(plain) or r.same(-plain) \
+            or r.same(-(plain * sign))
+
+    def show(k):
+        m_ = got[k].monomial()
+        if m_ is None:
+            return txt(entries[k])
+        return " * ".join([str(m_[1])] + [f"{s_}^{e}" if e != 1 else s_
+                                          for s_, e in sorted(m_[0].items())])
     for a, b in (("m10", "m01"), ("m20", "m02"), ("m30", "m03"),
                  ("m21", "m12"), ("m11", "m11"), ("m00", "m00")):
-        ok = got.get(a) == want[a] and got.get(b) == want[b]
+        ok = scale_ok[a] and scale_ok[b]
         ctx.ob("R18.7", ok, f"{a} and {b} scale their sums by 1/"
                f"{want[a][1].denominator}" if ok else
-               f"{a} = {got.get(a)}, {b} = {got.get(b)}; expected "
-               f"{want[a]} and {want[b]}", node=md[0],
+               f"{a} = {show(a)}, {b} = {show(b)}; expected "
+               f"{want[a][0]} / {want[a][1].denominator} and "
+               f"{want[b][0]} / {want[b][1].denominator}", node=md,
                key=f"{INERT}::cont_moments_cv::scale {a}/{b}")
     # sign flip for negative orientation covers every constant
-    flips = {txt(s.target) for s in walk(fn) if isinstance(s, ast.AugAssign)
-             and isinstance(s.op, ast.Mult) and txt(s.value) == "-1"}
-    ok = flips == set(consts)
-    ctx.ob("R18.7", ok, "a clockwise contour flips the sign of every scale "
-           "constant" if ok else f"sign flip misses "
-           f"{sorted(set(consts) - flips)}", node=md[0],
+    miss = sorted(k for k in want if scale_ok[k] and not sign_ok[k])
+    ctx.ob("R18.7", not miss, "a clockwise contour flips the sign of every "
+           "moment" if not miss else f"the orientation sign is not applied "
+           f"to {miss}", node=md,
            key=f"{INERT}::cont_moments_cv::orientation sign of constants")
     # central moments
     mu = {}
@@ -1166,4 +1395,127 @@ TWINS = list(TWINS) + [
     ("moments: float promotion guarded by np.inexact", INERT,
      ("    elif np.issubdtype(cont.dtype, np.floating):",
       "    elif np.issubdtype(cont.dtype, np.inexact):")),
+]
+
+# behaviour-preserving refactorings /tmp/seed/rfout_C18/refactor2-4
+_DB_OLD = (
+    "        db1_2 = 0.5\n"
+    "        db1_6 = 0.16666666666666666666666666666667\n"
+    "        db1_12 = 0.083333333333333333333333333333333\n"
+    "        db1_24 = 0.041666666666666666666666666666667\n"
+    "        db1_20 = 0.05\n"
+    "        db1_60 = 0.016666666666666666666666666666667\n"
+    "\n"
+    "        if a00 < 0:\n"
+    "            db1_2 *= -1\n"
+    "            db1_6 *= -1\n"
+    "            db1_12 *= -1\n"
+    "            db1_24 *= -1\n"
+    "            db1_20 *= -1\n"
+    "            db1_60 *= -1\n")
+_DB_NEW = (
+    "        # flip the sign of all factors for clockwise contours\n"
+    "        sign = -1 if a00 < 0 else 1\n"
+    "        db1_2 = _DB1_2 * sign\n"
+    "        db1_6 = _DB1_6 * sign\n"
+    "        db1_12 = _DB1_12 * sign\n"
+    "        db1_24 = _DB1_24 * sign\n"
+    "        db1_20 = _DB1_20 * sign\n"
+    "        db1_60 = _DB1_60 * sign\n")
+_DB_CONST = (
+    "import scipy.spatial as ssp\n\n"
+    "#: Normalization factors of OpenCV's `contourMoments` (1/2, 1/6, ...)\n"
+    "_DB1_2 = 0.5\n"
+    "_DB1_6 = 0.16666666666666666666666666666667\n"
+    "_DB1_12 = 0.083333333333333333333333333333333\n"
+    "_DB1_24 = 0.041666666666666666666666666666667\n"
+    "_DB1_20 = 0.05\n"
+    "_DB1_60 = 0.016666666666666666666666666666667\n")
+_BG_HELPER = (
+    "def _bg_corrected_image(image, image_bg, index):\n"
+    "    \"\"\"Return background-corrected integer image of event "
+    "`index`\"\"\"\n"
+    "    # cast to integer before subtraction\n"
+    "    return np.array(image[index], dtype=int) - image_bg[index]\n\n\n")
+_BG_OLD = ("        # cast to integer before subtraction\n"
+           "        imgi = np.array(image[ii], dtype=int) - image_bg[ii]\n")
+_BG_NEW = "        imgi = _bg_corrected_image(image, image_bg, ii)\n"
+
+TWINS = list(TWINS) + [
+    ("moments: normalisation factors as module constants, sign variable",
+     INERT,
+     [(_DB_OLD, _DB_NEW), ("import scipy.spatial as ssp\n", _DB_CONST)]),
+    ("moments: sign test mirrored", INERT,
+     [(_DB_OLD, _DB_NEW.replace("sign = -1 if a00 < 0 else 1",
+                                "sign = 1 if a00 > 0 else -1")),
+      ("import scipy.spatial as ssp\n", _DB_CONST)]),
+    ("moments: sign via np.sign", INERT,
+     [(_DB_OLD, _DB_NEW.replace("sign = -1 if a00 < 0 else 1",
+                                "sign = np.sign(a00)")),
+      ("import scipy.spatial as ssp\n", _DB_CONST)]),
+    ("volume: products, named intermediates, reordered assignments", VOL,
+     [("    rp = r[:-1]\n\n"
+       "    # array of radii differences: R - r\n"
+       "    dr = np.diff(r)\n"
+       "    # array of height differences: h\n"
+       "    dz = np.diff(z)\n",
+       "    # array of height differences: h\n"
+       "    dz = np.diff(z)\n"
+       "    # array of radii differences: R - r\n"
+       "    dr = np.diff(r)\n\n"
+       "    rp = r[:-1]\n"),
+      ("    a1 = 3 * rp**2\n    a2 = 3 * rp*dr\n    a3 = dr**2\n",
+       "    a1 = 3 * (rp * rp)\n    a2 = 3 * rp * dr\n    a3 = dr * dr\n"),
+      ("    v = np.pi / 3 * dz * np.abs(a1 + a2 + a3)\n"
+       "    vol = np.sum(v) * point_scale ** 3\n",
+       "    cone_factor = np.pi / 3\n"
+       "    area_terms = np.abs(a1 + a2 + a3)\n"
+       "    v = cone_factor * dz * area_terms\n"
+       "    scale_cubed = point_scale ** 3\n"
+       "    vol = np.sum(v) * scale_cubed\n")]),
+    ("volume: centroid converted to pixels in a named intermediate", VOL,
+     [("            contour_x = cc[:, 0] - pos_x[ii] / pix\n"
+       "            contour_y = cc[:, 1] - pos_y[ii] / pix\n",
+       "            cx_px = pos_x[ii] / pix\n"
+       "            cy_px = pos_y[ii] / pix\n"
+       "            contour_x = cc[:, 0] - cx_px\n"
+       "            contour_y = cc[:, 1] - cy_px\n"),
+      ("            v_avg[ii] = (vol_right + vol_left) / 2\n",
+       "            vol_both = vol_right + vol_left\n"
+       "            v_avg[ii] = 0.5 * vol_both\n")]),
+    ("bright_bc: background subtraction extracted into a helper", BC,
+     [(_BG_OLD, _BG_NEW),
+      ("def get_bright_bc(", _BG_HELPER + "def get_bright_bc(")]),
+    ("bright_perc: helper extraction and early return", PERC,
+     [(_BG_OLD, _BG_NEW),
+      ("def get_bright_perc(", _BG_HELPER + "def get_bright_perc("),
+      ("    if ret_list:\n        return p10, p90\n    else:\n"
+       "        return p10[0], p90[0]\n",
+       "    if not ret_list:\n        # Only return scalars\n"
+       "        return p10[0], p90[0]\n\n    return p10, p90\n")]),
+]
+
+MUTANTS = list(MUTANTS) + [
+    ("helper casts the background to int", BC,
+     [(_BG_OLD, _BG_NEW),
+      ("def get_bright_bc(", _BG_HELPER.replace(
+          "- image_bg[index]", "- np.array(image_bg[index], dtype=int)")
+       + "def get_bright_bc(")], "R18.2"),
+    ("module constant for the second moments wrong", INERT,
+     [(_DB_OLD, _DB_NEW),
+      ("import scipy.spatial as ssp\n", _DB_CONST.replace(
+          "_DB1_12 = 0.083333333333333333333333333333333",
+          "_DB1_12 = 0.08"))], "R18.7"),
+    ("sign variable with the wrong polarity", INERT,
+     [(_DB_OLD, _DB_NEW.replace("sign = -1 if a00 < 0 else 1",
+                                "sign = -1 if a00 > 0 else 1")),
+      ("import scipy.spatial as ssp\n", _DB_CONST)], "R18.7"),
+    ("sign variable not applied to one factor", INERT,
+     [(_DB_OLD, _DB_NEW.replace("db1_20 = _DB1_20 * sign",
+                                "db1_20 = _DB1_20")),
+      ("import scipy.spatial as ssp\n", _DB_CONST)], "R18.7"),
+    ("cube hidden in a wrong intermediate", VOL,
+     ("    vol = np.sum(v) * point_scale ** 3\n",
+      "    scale_cubed = point_scale ** 2\n"
+      "    vol = np.sum(v) * scale_cubed\n"), "R18.4"),
 ]
